@@ -165,6 +165,7 @@ func (st *State) assume(t Term) {
 // ------------------------------------------------------------------------------------------------
 
 type Exec struct {
+	hookRecv Value // receiver of the interface call whose `at` hooks are being evaluated
 	prog     *Program
 	fresh    int
 	cellSeq  int
